@@ -22,6 +22,18 @@ PROGRAMS = [
     "for q in [1, 2, 3]:\n    if q == 2:\n        break\n    print(q)\nelse:\n    print('none')\ndef first(xs):\n    for x in xs:\n        if x:\n            return x\n    return None\nprint(first([0, 3]))\n",
 ]
 
+# scripts the converter refuses, each in the MIDDLE of converting something (a nested expression, a nested block): a refused
+# conversion must leave nothing behind either
+FAILING = [
+    "total = 1\ntotal = total + (yield total)\n",
+    "def g():\n    received = None\n    while True:\n        received = str((yield received))\n",
+    "import asyncio\nprint('x', [1, (await asyncio.sleep(0))])\n",
+    "y = []\nx = [0, [i async for i in y]][0]\n",
+    "class Q:\n    pass\nq = Q()\na, b = 1, [q.z for q.z in [1]]\n",
+    "def h(v):\n    for i in v:\n        if i:\n            try:\n                pass\n            finally:\n                pass\n    return v\n",
+    "x = {'k': (lambda: (yield))}\nwhile x:\n    if x:\n        break\n    del x\n",
+]
+
 OPTS = {"unparser": ["ast.unparse", "oneliner"], "expr_wrapper": ["list", "chain_call"],
         "if_style": ["if_expr", "short_circuit"]}
 NAMES = ["unparser", "expr_wrapper", "if_style"]
@@ -101,6 +113,17 @@ def cross_program_histories():
                        ["convert", 0, pb]]
 
 
+def failed_conversion_histories():
+    """a conversion that RAISES (with and without options), then ordinary conversions: the next calls must not see it"""
+    for fi in range(len(FAILING)):
+        for pb in range(len(PROGRAMS)):
+            yield [["fail", None, fi], ["convert", None, pb], ["convert", None, pb]]
+            for name in NAMES:
+                v2 = OPTS[name][1 - OPTS[name].index(DEFAULTS[name])]
+                yield [["new"], ["set", 0, name, v2], ["fail", 0, fi], ["convert", 0, pb], ["convert", None, pb]]
+                yield [["new"], ["fail", None, fi], ["set", 0, name, v2], ["convert", 0, pb], ["fail", 0, fi], ["convert", None, pb]]
+
+
 DEFAULTS = {"unparser": "ast.unparse", "expr_wrapper": "chain_call", "if_style": "if_expr"}
 
 
@@ -147,7 +170,7 @@ def run_real(histories, hashseed="0"):
     def one(h):
         env = common.child_env(PYTHONHASHSEED=hashseed)
         p = subprocess.run([common.PY, "-W", "ignore", os.path.join(common.VERIF, "harness", "impl", "c10_worker.py")],
-                           input=json.dumps({"history": h, "programs": PROGRAMS}) + "\n",
+                           input=json.dumps({"history": h, "programs": PROGRAMS, "failing": FAILING}) + "\n",
                            capture_output=True, text=True, env=env, timeout=300)
         try:
             return json.loads(p.stdout.strip().splitlines()[-1])
@@ -196,7 +219,11 @@ def run(chk, build, replay=None):
         if "history" in v:
             corpus = [v["history"]]
     nrand = 120 if chk.tier == "quick" else 1500
-    hists = list(corpus) + list(structured_histories()) + list(cross_program_histories()) + [gen_history(rng) for _ in range(nrand)]
+    failing = list(failed_conversion_histories())
+    if chk.tier == "quick":
+        failing = failing[::3]
+    hists = list(corpus) + list(structured_histories()) + list(cross_program_histories()) + failing + \
+        [gen_history(rng) for _ in range(nrand)]
     if chk.tier == "thorough":
         hists += list(exhaustive_histories())
     answers = common.model_eval([hist_sexp(h) for h in hists])
@@ -227,6 +254,9 @@ def run(chk, build, replay=None):
                 want = [[DEFAULTS[n] for n in NAMES]]
                 if not (isinstance(ro, dict) and ro.get("fresh_option_values") == want):
                     mism = (i, f"fresh options objects do not read the defaults after other objects were dropped: {ro}")
+            elif a[0] == "fail":
+                if not (isinstance(ro, str) and ro.startswith("raised:")):
+                    mism = (i, f"a script the converter refuses in a fresh process was handled differently here: {str(ro)[:200]}")
             elif a[0] == "convert":
                 if not isinstance(ro, dict):
                     mism = (i, f"conversion failed: {ro}")
